@@ -807,6 +807,28 @@ func (e *Enc) evalBinary(n *ast.BinaryExpr, env *Env) Val {
 	if a.Bad || b.Bad {
 		return Val{Bad: true}
 	}
+	// typed constants combined with a bitwise operator (langBashLike|LangMirBSDKorn): fold, as the compiler does; in
+	// integer mode the bitwise operators are otherwise uninterpreted
+	if e.M == ModeInt && a.T != nil && b.T != nil && len(a.L) == 1 && len(b.L) == 1 && (n.Op == token.OR || n.Op == token.AND || n.Op == token.XOR || n.Op == token.AND_NOT) {
+		if _, isInt := a.T.Underlying().(*types.Basic); isInt && types.Identical(a.T, b.T) {
+			x, okx := new(big.Int).SetString(a.L[0], 10)
+			y, oky := new(big.Int).SetString(b.L[0], 10)
+			if okx && oky && x.Sign() >= 0 && y.Sign() >= 0 {
+				r := new(big.Int)
+				switch n.Op {
+				case token.OR:
+					r.Or(x, y)
+				case token.AND:
+					r.And(x, y)
+				case token.XOR:
+					r.Xor(x, y)
+				case token.AND_NOT:
+					r.AndNot(x, y)
+				}
+				return Val{T: a.T, L: []string{m.lit(m.intSort(a.T), r)}}
+			}
+		}
+	}
 	// constant folding
 	if a.Const != nil && a.T == nil && b.Const != nil && b.T == nil {
 		r := new(big.Int)
